@@ -269,8 +269,24 @@ impl Step {
     }
 }
 
+/// A query macro run from INSIDE a mut-mode closure on the unmatched ("other") archetype of a site.
+#[derive(Clone, Copy, Debug)]
+pub struct NestedReq {
+    /// 0 = ecs_iter!, 1 = ecs_iter_destroy!, 2 = ecs_find!
+    pub kind: u8,
+    pub key: Option<EntityAny>,
+}
+
 pub trait VisitHook<W> {
     fn visit(&mut self, v: Visit<'_, '_, W>) -> Step;
+    /// Asked by the site body after `visit` returned (the `other` borrow has ended): run a nested macro?
+    fn nested_req(&mut self) -> Option<NestedReq> {
+        None
+    }
+    fn nested_visit(&mut self, _ent: Bits, _dir: Option<EntityDirectAny>, _matched: u8) -> Step {
+        Step::Continue
+    }
+    fn nested_done(&mut self, _found: Option<bool>) {}
 }
 
 impl<W, F: FnMut(Visit<'_, '_, W>) -> Step> VisitHook<W> for F {
